@@ -76,4 +76,15 @@ Documented(t) ==
       [] t.k \in {"ptr", "slice", "array", "chan"} -> Documented(t.e[1])
       [] t.k = "map" -> Documented(t.e[1]) /\ Documented(t.e[2])
       [] OTHER -> FALSE
+(* an alias that uniqueName derived from the path and that cannot stand in    *)
+(* an import declaration: not an identifier (2fa...), a keyword (go, type),   *)
+(* or a predeclared name the generated file still needs (error, string...)   *)
+RECURSIVE ConcatCs(_, _), ConcatS(_, _)
+ConcatS(san, k) == IF k = 0 THEN "" ELSE san[k] \o ConcatS(san, k - 1)   \* what uniqueName(k - 1) returns
+ConcatCs(sanCs, k) == IF k = 0 THEN <<>> ELSE sanCs[k] \o ConcatCs(sanCs, k - 1)
+Predeclared == {"error", "string", "bool", "int", "any", "byte", "rune", "uint", "nil", "true", "false", "len", "append", "panic", "struct", "func"}
+BadAlias(r) == /\ r.alias # ""
+               /\ \E k \in 1..Len(r.san) :
+                     /\ r.alias = ConcatS(r.san, k)
+                     /\ (~IsIdent(ConcatCs(r.sanCs, k)) \/ r.alias \in Keywords \/ r.alias \in Predeclared)
 =============================================================================
